@@ -70,9 +70,14 @@ impl<'a, L> Engine<'a, L> {
             let g_id = q.g().map_or_else(|| Box::from(" "), |g| g.as_id());
             let s_id = q.s().as_id();
             let is = self.index(g_id.clone(), s_id.clone());
-            if q.g().is_some() {
+            if let Some(g) = q.g() {
                 let ig = self.index(" ".to_string(), g_id.clone());
                 self.node[ig].push_if_new("@graph", RdfObject::Node(is, s_id));
+                if g.is_bnode() {
+                    // a blank node that names a graph must keep its label:
+                    // it can not be folded into an anonymous @list
+                    self.unique_parent.insert(g_id.clone(), None);
+                }
             }
             let obj = self.make_rdf_object(q.o(), &g_id);
             let p = if rdf::type_ == q.p() && obj.is_iri() && !self.options.use_rdf_type() {
